@@ -24,14 +24,13 @@ Proof.
            (oi_len_spec t B)).
 Qed.
 
-Theorem C10_one_iter : forall sp m t b B cs it, bv_repr b B -> oi_inv t B it -> Forall call_fits cs ->
+Theorem one_iter_all_histories : forall sp m t b B cs it, bv_repr b B -> oi_inv t B it -> Forall call_fits cs ->
   exists it', it_run (oi_step sp m t b) it cs = Ok (it', snd (dq_run (oi_mid t B it) cs)) /\
               oi_inv t B it' /\ oi_mid t B it' = fst (dq_run (oi_mid t B it) cs).
 Proof.
   intros sp m t b B cs it Hrep Hinv Hcs.
   exact (oi_run_refines sp m t b (oi_rel t B) (oi_steps_hold sp m t b B Hrep) cs it _ (conj Hinv eq_refl) Hcs).
 Qed.
-Print Assumptions C10_one_iter.
 
 Theorem oi_entries_hold sp0 m0 sp m b B : bv_repr b B ->
   select_ok sp0 m0 Identity b B -> select_ok sp0 m0 Complement b B ->
@@ -48,7 +47,7 @@ Proof.
   - intros v Hv. exact (bv_successor_spec sp0 m0 sp m b B v Hrep Hs1 Hrank Hv).
 Qed.
 
-Theorem C10_one_iter_entries : forall sp0 m0 sp m b B, bv_repr b B ->
+Theorem one_iter_entries_all_histories : forall sp0 m0 sp m b B, bv_repr b B ->
   select_ok sp0 m0 Identity b B -> select_ok sp0 m0 Complement b B ->
   (forall i, i < 2 ^ 64 -> bv_rank_q b i = Ok (rank1 B i)) ->
   forall e tr it0 l cs, oi_entry sp m b e = Some (tr, it0) ->
@@ -61,4 +60,3 @@ Proof.
   exact (oi_entries_run_refine sp m b B _ _ (oi_steps_hold sp m Identity b B Hrep) (oi_steps_hold sp m Complement b B Hrep)
            (oi_entries_hold sp0 m0 sp m b B Hrep Hs1 Hs0 Hrank)).
 Qed.
-Print Assumptions C10_one_iter_entries.
